@@ -42,9 +42,15 @@ Terminal  : "the terminal" is file descriptor 1 (stdout) and 2 (stderr) of the x
             replaced by write-through text wrappers over those same fds, so output of real children (inherited
             fds), of aliases (Python streams) and of xonsh's own tee of captured output all land in the same
             two files.  fd 0 is /dev/null.
-Hang bound: 10 s per execution (typical 3-15 ms), SIGALRM re-armed every 2 s, BaseException subclass; a hang is a
-            recorded failure; after 6 hangs a worker stops (its process is full of stuck threads) and counts the rest
-            of its share as inconclusive.
+Hang bound: 10 s per execution (typical 3-15 ms) until the command has returned, SIGALRM re-armed every 2 s,
+            BaseException subclass; a hang is a recorded failure; after 6 hangs a worker stops (its process is full
+            of stuck threads) and counts the rest of its share as inconclusive.  Threads the command leaves behind
+            are waited for separately (5 s for all of them, noted as 'thread-left-behind', the subject of C09).
+Reproduce : an unattributed failure is re-executed twice in the worker; the first three distinct symptoms of every
+            worker part - and every symptom in a worker that carries a thread left behind by an earlier case - must
+            also fail in a fresh interpreter (a worker runs thousands of lines in one process; leftovers of an earlier
+            line can keep xonsh's shared sys.stdout swap open, hold pipes or close descriptor numbers in use again);
+            a hang must repeat in two fresh interpreters.  What does not reproduce is counted as inconclusive.
 """
 
 from __future__ import annotations
@@ -75,6 +81,7 @@ RULE = ("(1) product: documented redirect spelling x stage kind (external / thre
         "pipe, capture or alias body, non-trivial = every case; distinct = hash of the case (rendered source + configuration)")
 
 HANG_S = 10
+FRESH_CONFIRMATIONS = 3
 MAX_HANGS = 6          # per worker; afterwards the worker's remaining cases are counted as inconclusive
 # A rejected command (conflict / unopenable target) must never have *delivered* anything.  Whether it may already have
 # created an (empty) write target or truncated a `>` target it was asked to overwrite is not stated by the property text
@@ -932,9 +939,10 @@ def _quiesce(had_exc):
     import time
 
     stuck = _state.setdefault("stuck", set())
+    deadline = time.time() + 5.0        # for all leftover threads of this case together
     for t in threading.enumerate():
         if t is not threading.current_thread() and type(t).__name__ in ("ProcProxyThread", "PopenThread") and t.ident not in stuck:
-            t.join(3.0)
+            t.join(max(0.2, min(3.0, deadline - time.time())))
             if t.is_alive():
                 # a thread that xonsh left behind for good (e.g. an alias blocked on a pipe nobody will ever close):
                 # wait for it once, not again after every later case
@@ -981,31 +989,57 @@ class _Terminal:
         os.close(nul)
         os.dup2(st["tfd"][0], 1)
         os.dup2(st["tfd"][1], 2)
-        sys.stdout = io.TextIOWrapper(io.FileIO(1, "w", closefd=False), encoding="utf-8", errors="surrogateescape",
-                                      write_through=True)
-        sys.stderr = io.TextIOWrapper(io.FileIO(2, "w", closefd=False), encoding="utf-8", errors="surrogateescape",
-                                      write_through=True)
+        t_out = io.TextIOWrapper(io.FileIO(1, "w", closefd=False), encoding="utf-8", errors="surrogateescape", write_through=True)
+        t_err = io.TextIOWrapper(io.FileIO(2, "w", closefd=False), encoding="utf-8", errors="surrogateescape", write_through=True)
+        self.t_std = (t_out, t_err)
+        sys.stdout, sys.stderr = t_out, t_err
         # xonsh's per-thread dispatchers fall back to the sys.stdout/sys.stderr objects of import time, i.e. to the
         # terminal; point them at this case's terminal objects so that a stream object closed by one case (xonsh can
         # close the fallback object when two threaded aliases race on sys.stdout) cannot poison the next one
         try:
             from xonsh.procs import proxies
 
-            proxies.STDOUT_DISPATCHER.default = sys.stdout
-            proxies.STDERR_DISPATCHER.default = sys.stderr
+            proxies.STDOUT_DISPATCHER.default = t_out
+            proxies.STDERR_DISPATCHER.default = t_err
             proxies.STDOUT_DISPATCHER.registry.clear()
             proxies.STDERR_DISPATCHER.registry.clear()
+            self._shared_scope(proxies, (t_out, t_err), install=True)
         except Exception:  # noqa: BLE001
             pass
         return self
 
+    @staticmethod
+    def _shared_scope(proxies, streams, install):
+        """Since the repair of C07-F14 the alias threads share one swap of sys.stdout / sys.stderr (first scope in installs
+        the dispatchers, last one out restores).  An alias thread that an *earlier* case left behind inside its scope
+        keeps that swap open: a shell would simply go on with the dispatchers as its std streams.  The harness replaces
+        sys.stdout / sys.stderr for every case, so in that situation it has to do what the open swap stands for: keep
+        the dispatchers installed (their default is this case's terminal) and make this case's streams the ones the
+        last scope out will restore - otherwise no later alias scope installs the dispatchers (depth > 0) and every
+        print() of an alias body lands on the terminal."""
+        sr = getattr(proxies, "_SharedStdRedirect", None)
+        if sr is None or not hasattr(sr, "_depth") or not hasattr(sr, "_lock"):
+            return
+        with sr._lock:
+            if sr._depth > 0:
+                sr._saved = streams
+                if install:
+                    sys.stdout, sys.stderr = proxies.STDOUT_DISPATCHER, proxies.STDERR_DISPATCHER
+                _state["open_scope_seen"] = True
+
     def __exit__(self, *a):
-        for s in (sys.stdout, sys.stderr):
+        for s in self.t_std:
             try:
                 s.flush()
             except Exception:  # noqa: BLE001
                 pass
         sys.stdin, sys.stdout, sys.stderr = self.saved_py
+        try:
+            from xonsh.procs import proxies
+
+            self._shared_scope(proxies, (self.saved_py[1], self.saved_py[2]), install=False)
+        except Exception:  # noqa: BLE001
+            pass
         for n, fd in enumerate(self.saved_fd):
             os.dup2(fd, n)
             os.close(fd)
@@ -1127,9 +1161,13 @@ def execute(case):
             st["last_exc"] = "%s: %s" % (type(e).__name__, str(e)[:300])
         try:
             if exc != "HANG":
+                # the command has returned: the hang bound is met.  Waiting for the threads it left behind has its own
+                # budget (_quiesce); the timer stays armed only as a safety net, and running into it is noted as a thread
+                # left behind, not as a hang (three leftover threads at 3 s each used to add up to a "hang")
+                signal.setitimer(signal.ITIMER_REAL, 3 * HANG_S, 2.0)
                 _quiesce(exc is not None)
         except _Timeout:
-            exc = "HANG"
+            st["stuck_new"] = st.get("stuck_new", 0) + 1
     finally:
         signal.setitimer(signal.ITIMER_REAL, 0)
         term.__exit__()
@@ -1276,6 +1314,8 @@ def check_case(case):
     f, labels, obs = _check_once(case)
     if f is None or f.finding is not None:
         return f, labels, obs
+    if os.environ.get("C07_CHILD") == "once":
+        return f, labels, obs       # a fresh interpreter started only to see whether this line fails in it at all
     confirmed = _state.setdefault("confirmed", set())
     if f.kind != "hang" and f.bucket in confirmed:
         # this symptom has already reproduced three times in a row in this worker: further cases with the same
@@ -1287,34 +1327,65 @@ def check_case(case):
         if f2 is None or f2.finding is not None:
             _state["flaky"].append("%s: %s" % (f.kind, f.detail[:300]))
             return f2, l2 + ["flaky:" + f.kind], o2
-    if f.kind == "hang" and not os.environ.get("C07_CHILD") and not _hangs_in_fresh_process(case):
-        # after a hang this process is full of stuck threads and leaked pipes, so the second hang proves little: a hang
-        # is reported only when the same line also hangs in a fresh interpreter
-        _state["flaky"].append("hang (not in a fresh process): %s" % f.detail[:300])
-        return None, labels + ["flaky:hang"], obs
+    if not os.environ.get("C07_CHILD"):
+        if f.kind == "hang":
+            # after a hang this process is full of stuck threads and leaked pipes, so the second hang proves little: a
+            # hang is reported only when the same line also hangs in a fresh interpreter
+            if not _fails_in_fresh_process(case, hang=True):
+                _state["flaky"].append("hang (not in a fresh process): %s" % f.detail[:300])
+                return None, labels + ["flaky:hang"], obs
+        elif _tainted() or _state.get("fresh_confirmed", 0) < FRESH_CONFIRMATIONS:
+            # A worker executes thousands of lines in one interpreter; a thread that an earlier case left behind may
+            # still sit inside xonsh's shared stream swap, hold pipes or close descriptor numbers that are in use again.
+            # What fails three times here but not in a fresh interpreter is the after-effect of that earlier case (C09's
+            # subject), not a property of this line.  The first FRESH_CONFIRMATIONS distinct symptoms of every worker
+            # part, and every symptom of a worker that is known to carry such a thread, must therefore also show in a
+            # fresh interpreter; after that many confirmed symptoms the tree evidently misroutes and re-execution here
+            # is enough (keeps a run against a broken tree inside the time budget).
+            if not _fails_in_fresh_process(case, hang=False):
+                _state["flaky"].append("failed three times in this worker but not in a fresh interpreter: %s" % f.detail[:300])
+                return None, labels + ["flaky:not-in-fresh-interpreter"], obs
+            _state["fresh_confirmed"] = _state.get("fresh_confirmed", 0) + 1
     confirmed.add(f.bucket)
     return f, labels, obs
 
 
-def _hangs_in_fresh_process(case):
+def _tainted():
+    return bool(_state.get("stuck")) or bool(_state.get("open_scope_seen"))
+
+
+def _fails_in_fresh_process(case, hang):
+    """Replays the case in a fresh interpreter: does it fail there, too (unattributed; for a hang: as a hang)?"""
     import subprocess
 
-    path = os.path.join(_state["scratch"], "hang-%d-%s.json" % (os.getpid(), common.h64(case_key(case))))
+    path = os.path.join(_state["scratch"], "confirm-%d-%s.json" % (os.getpid(), common.h64(case_key(case))))
     with open(path, "w") as fh:
-        json.dump({"kind": "hang", "case": common.jsonable(case, full=True)}, fh)
-    env = dict(os.environ, C07_CHILD="1")
+        json.dump({"kind": "hang" if hang else "confirm", "case": common.jsonable(case, full=True)}, fh)
+    # a hang: two independent interpreters, one execution each, both must hang (an intermittent stall - seen in 20-30 % of
+    # the runs of `alias | slow alias | program that ignores its stdin` - is scheduling, not reported by this check);
+    # anything else: one interpreter with the usual three executions
+    env = dict(os.environ, C07_CHILD="once" if hang else "1")
     try:
-        r = subprocess.run([sys.executable, os.path.join(common.VERIF, "run.py"), PROP, "--replay", path], env=env, cwd=common.VERIF,
-                           stdin=subprocess.DEVNULL, stdout=subprocess.PIPE, stderr=subprocess.STDOUT, timeout=8 * HANG_S)
-        out = r.stdout.decode("utf-8", "replace")
-    except subprocess.TimeoutExpired:
+        for _ in range(2 if hang else 1):
+            try:
+                r = subprocess.run([sys.executable, os.path.join(common.VERIF, "run.py"), PROP, "--replay", path], env=env,
+                                   cwd=common.VERIF, stdin=subprocess.DEVNULL, stdout=subprocess.PIPE, stderr=subprocess.STDOUT,
+                                   timeout=8 * HANG_S)
+                out = r.stdout.decode("utf-8", "replace")
+            except subprocess.TimeoutExpired:
+                continue            # the fresh interpreter itself did not come back: a hang
+            lines = [ln for ln in out.splitlines() if ln.startswith("VIOLATION")]
+            if hang:
+                if not any("kind=hang" in ln for ln in lines):
+                    return False
+            else:
+                return any(re.match(r"VIOLATION property=\S+ replay=\S+ kind=\S+ attributed=", ln) is None for ln in lines)
         return True
     finally:
         try:
             os.unlink(path)
         except OSError:
             pass
-    return "VIOLATION" in out and "kind=hang" in out
 
 
 def _check_once(case):
@@ -1364,8 +1435,9 @@ def classify(case, exp, obs, probs):
     (and, when several defects meet in one case, the smallest set of them) switched on."""
     if obs is None:
         return None
+    is_open = _state.get("open", ())
     if obs["exc"] == "HANG":
-        if "C07-F11" in applicable(case):
+        if "C07-F11" in is_open and "C07-F11" in applicable(case):
             # `err>1.txt 1>e` is read as `err>1` + `1>e`, a circular merge (no documented meaning, never generated on
             # purpose); that xonsh does not return from it is a consequence of the mis-tokenization
             try:
@@ -1375,21 +1447,25 @@ def classify(case, exp, obs, probs):
         return None
     app = applicable(case)
     # open findings first: a symptom that an open finding explains is not blamed on a repaired one
-    is_open = _state.get("open", ())
     app.sort(key=lambda fid: fid not in is_open)
+    undefined_as_tokenized = False
     for size in range(1, len(app) + 1):
         for sub in itertools.combinations(app, size):
             try:
                 exps = expectations(case, defects=frozenset(sub))
             except Undefined:
-                if "C07-F11" in sub:
-                    # read the way the tokenizer reads it, the line combines operators to which the documentation gives
-                    # no meaning (`1>err.log e>p` = o>e + e>p): whatever happened, it happened to a mis-tokenized line
-                    return "C07-F11"
-                return None
+                # this set of defects turns the line into something the documentation gives no meaning: it predicts
+                # nothing, so it explains nothing; the other sets are still tried
+                undefined_as_tokenized = undefined_as_tokenized or "C07-F11" in sub
+                continue
             for e in exps:
                 if not compare(case, e, obs):
                     return sub[0]
+    if undefined_as_tokenized and "C07-F11" in is_open:
+        # last resort, only while the tokenizer defect is open and nothing else explains the observation: read the way
+        # the tokenizer reads it, the line combines operators without a documented meaning (`1>err.log e>p` = o>e + e>p);
+        # whatever happened, it happened to a mis-tokenized line
+        return "C07-F11"
     return None
 
 
@@ -1522,6 +1598,7 @@ def worker_pairs(arg):
     shard, nshards, seed, permille, scratch = arg
     _setup(scratch)
     _state["confirmed"] = set()
+    _state["fresh_confirmed"] = 0
     st = Stats()
     try:
         for ci, case in enumerate(pair_cases()):
@@ -1613,6 +1690,7 @@ def worker_bodies(arg):
     shard, nshards, seed, permille, scratch = arg
     _setup(scratch)
     _state["confirmed"] = set()
+    _state["fresh_confirmed"] = 0
     st = Stats()
     try:
         for ci, cell in enumerate(body_cells()):
@@ -1675,6 +1753,7 @@ def worker_product(arg):
     shard, nshards, seed, permille, scratch = arg
     _setup(scratch)
     _state["confirmed"] = set()
+    _state["fresh_confirmed"] = 0
     st = Stats()
     try:
         for gi, g in enumerate(product_groups()):
@@ -1905,6 +1984,7 @@ def worker_generated(arg):
     seed, n, scratch = arg
     _setup(scratch)
     _state["confirmed"] = set()
+    _state["fresh_confirmed"] = 0
     st = Stats()
 
     avoid = frozenset(_state["open"])
@@ -1965,6 +2045,7 @@ def worker_malformed(arg):
     scratch = arg
     _setup(scratch)
     _state["confirmed"] = set()
+    _state["fresh_confirmed"] = 0
     st = Stats()
     try:
         for raw in MALFORMED:
@@ -2037,10 +2118,12 @@ def _replay_case(case):
                            finding=fid)
         return None
     f, _labels, _obs = check_generated(case)
-    if f is None and any(st["kind"] == "sl" for st in case["stages"]):
+    if f is None and not os.environ.get("C07_CHILD"):
         # a recorded case whose symptom needs two threads to overlap: on a heavily loaded machine the overlap can be
-        # missed once, so such a replay gets two more attempts before it counts as "no longer reproduces"
-        for _ in range(2):
+        # missed once, so such a replay gets two more attempts before it counts as "no longer reproduces"; the recorded
+        # race C07-F15 shows in 10-40 % of the executions and gets eight
+        more = 8 if "C07-F15" in applicable(case) else 2 if any(st["kind"] == "sl" for st in case["stages"]) else 0
+        for _ in range(more):
             f, _labels, _obs = check_generated(case)
             if f is not None:
                 break
@@ -2117,6 +2200,13 @@ def main(run):
         bpm = 1000 if thorough else 55
         ppm = 1000 if thorough else 250
         per = run.n(450, 14000)
+        camp = os.environ.get("C07_CAMPAIGN")
+        if camp:
+            # exploration campaign between the tiers: C07_CAMPAIGN="<permille of the alias-body product>,<generated examples per
+            # worker>" runs only part (3) and part (2) at the given sizes (the spelling and pair products are skipped)
+            bpm, per = (int(x) for x in camp.split(","))
+            permille = ppm = 0
+            run.stats.notes.append("campaign run C07_CAMPAIGN=%s: alias-body product and generated pipelines only" % camp)
         # one pool: worker w runs shard w of the three products (alias bodies x decorations, spellings, operator pairs),
         # worker 0 also the malformed list, then its share of the generated pipelines
         common.pool_map(run, __name__, "worker_all",
@@ -2174,5 +2264,6 @@ def replay(run, path):
     if fail is None:
         print("replay: property holds on this case")
         return 0
-    print("VIOLATION property=%s replay=%s kind=%s %s" % (PROP, path, fail.kind, fail.detail))
+    print("VIOLATION property=%s replay=%s kind=%s%s %s" % (PROP, path, fail.kind,
+                                                            " attributed=%s" % fail.finding if fail.finding else "", fail.detail))
     return 1
